@@ -6,10 +6,13 @@ Everything here drives the *real* VizierServicer; nothing in /repo is modified. 
   * PythiaServicer(servicer, policy_factory=...)                       (scripted algorithm, public seam)
   * servicer.datastore / SQLDataStore._connection                     (snapshots, crash proxy)
 """
+import contextlib
 import copy
 import datetime as _real_datetime
 import os
+import signal
 import sqlite3
+import threading
 import types as _types
 
 from vfw import boot
@@ -426,6 +429,12 @@ def build_request(a):
   if k == 'CreateStudy':      # ('CreateStudy', study, algorithm)
     return vs.CreateStudyRequest(parent=owner_name(a[1]), study=study_pb2.Study(
         display_name=study_id(a[1]), study_spec=spec(a[2] if len(a) > 2 else 'SCRIPTED')))
+  if k == 'CreateStudyMd':    # a study whose spec metadata is neither sorted nor free of repeated keys
+    sp = study_pb2.StudySpec()
+    sp.CopyFrom(spec())
+    for ns, key, val in (('', 'zeta', 'first'), ('n', 'k', 'v'), ('', 'alpha', 'a'), ('', 'zeta', 'second')):
+      sp.metadata.add(ns=ns, key=key, value=val)
+    return vs.CreateStudyRequest(parent=owner_name(a[1]), study=study_pb2.Study(display_name=study_id(a[1]), study_spec=sp))
   if k == 'CreateStudyNamed':  # request carrying study.name (documented invalid)
     return vs.CreateStudyRequest(parent=OWNER, study=study_pb2.Study(
         name=study_name(a[1]), display_name=a[1], study_spec=spec()))
@@ -527,12 +536,56 @@ def response_view(kind, r):
   return (type(r).__name__,)
 
 
+class Wedged(BaseException):
+  """A call into the code under test did not return within the deadline."""
+
+
+CALL_TIMEOUT_S = float(os.environ.get('VERIF_CALL_TIMEOUT_S', '30'))
+
+
+@contextlib.contextmanager
+def deadline(seconds=None):
+  """Bounds one call into the code under test (main thread only; a blocked lock acquisition, condition wait or gRPC
+  wait is interrupted by the alarm). A call that is still running when the alarm fires raises Wedged."""
+  if threading.current_thread() is not threading.main_thread():
+    yield
+    return
+
+  def on_alarm(signum, frame):
+    raise Wedged()
+  old = signal.signal(signal.SIGALRM, on_alarm)
+  signal.setitimer(signal.ITIMER_REAL, seconds or CALL_TIMEOUT_S)
+  try:
+    yield
+  finally:
+    signal.setitimer(signal.ITIMER_REAL, 0)
+    signal.signal(signal.SIGALRM, old)
+
+
+def held_locks(servicer):
+  """Names of the locks of a servicer that are held although no call is in progress (found by introspection, whatever
+  the attributes are called)."""
+  held = []
+  for attr, val in list(vars(servicer).items()):
+    if hasattr(val, 'locked') and callable(val.locked):
+      if val.locked():
+        held.append(attr)
+    elif isinstance(val, dict):
+      for k, v in list(val.items()):
+        if hasattr(v, 'locked') and callable(v.locked) and v.locked():
+          held.append('%s[%r]' % (attr, k))
+  return held
+
+
 def call(backend, a):
   """Thread-safe variant of apply(): no environment answers are touched. Returns (class, view)."""
   k = a[0]
   req = build_request(a)
   try:
-    r = getattr(backend.servicer, k if not k.startswith('CreateStudy') else 'CreateStudy')(req)
+    with deadline():
+      r = getattr(backend.servicer, k if not k.startswith('CreateStudy') else 'CreateStudy')(req)
+  except Wedged:
+    return 'HANG', ('error', 'DOES-NOT-RETURN')
   except Exception as e:  # pylint: disable=broad-except
     return err_class(e), ('error', type(e).__name__)
   return 'OK', response_view(k, r)
@@ -552,7 +605,11 @@ def apply(backend, a):
     setattr(backend.env, kk, v)
   req = build_request(a)
   try:
-    r = getattr(backend.servicer, k if not k.startswith('CreateStudy') else 'CreateStudy')(req)
+    with deadline():
+      r = getattr(backend.servicer, k if not k.startswith('CreateStudy') else 'CreateStudy')(req)
+  except Wedged:
+    backend.restart()       # the old server object may hold its locks for ever
+    return 'HANG', None, None
   except Exception as e:  # pylint: disable=broad-except
     return err_class(e), None, e
   view = response_view(k, r)
